@@ -33,12 +33,17 @@ RULE = (
 
 EPS = 2.0**-52
 TOL_Q = 2e-14        # |Q_got - Q_ref| <= TOL_Q * (2 pi / lambda); worst observed 8e-16
-TOL_UB = 16 * EPS    # |UB_ij - (U B)_ij| <= TOL_UB * |U_i.| |B_.j|; worst observed 1.3 EPS
-HKL_C1, HKL_C2 = 32.0, 1.0  # |hkl - hkl_ref| <= EPS (C1 cond + C2 cond^2) |hkl_ref|
+# |UB_ij - (U B)_ij| <= TOL_UB * |U_i.| |B_.j|. With U a stored matrix the a-priori bound of a length-3
+# dot product is 1.5 EPS (worst observed 1.0 EPS); with U a quaternion scipp first expands it to a
+# matrix, which costs a few EPS more per entry (worst observed 3.2 EPS).
+TOL_UB = {"matrix": 16 * EPS, "quat": 64 * EPS}
+# |hkl - hkl_ref| <= EPS (C1 cond + C2 cond^2) |hkl_ref|; worst observed 8.2 EPS cond at cond ~ 1 and
+# 0.1 EPS cond^2 at cond > 1e2
+HKL_C1, HKL_C2 = 128.0, 1.0
 TOLERANCES = {
     "Q_abs_over_k": TOL_Q,
     "UB_rel_to_row_col_norms": TOL_UB,
-    "hkl_forward_and_residual": "2^-52 * (32*cond + cond^2), cond = cond_2(R U B)",
+    "hkl_forward_and_residual": "2^-52 * (128*cond + cond^2), cond = cond_2(R U B)",
     "components": "bit-identical (NaN stays NaN)",
     "pow2_rescaling": "bit-identical",
 }
@@ -47,7 +52,7 @@ ASSUMPTIONS = [
     "errors of the Q vector are measured relative to k = 2 pi / lambda (not |Q|): the defining formula "
     "subtracts two unit vectors, each known to ~1 ulp, so near forward scattering the absolute error "
     "is ~eps*k however the formula is evaluated",
-    "'to rounding' for hkl means the accuracy of an explicit 3x3 inverse, eps*(32 cond + cond^2) "
+    "'to rounding' for hkl means the accuracy of an explicit 3x3 inverse, eps*(128 cond + cond^2) "
     "(DESIGN: the code documents that it inverts R*UB explicitly); the bound is applied both to the "
     "forward error against the exact solution of the stored Q and to the residual 2 pi R UB hkl - Q",
     "operands are float64 (vector3 / rotation3 / linear_transform3 are float64-only in scipp); "
@@ -323,7 +328,13 @@ def check_q_scale(case):
     bi2 = [[x * fi for x in v] for v in case["bi"]["values"]]
     bf2 = [[x * ff for x in v] for v in case["bf"]["values"]]
     _, got2 = _q_call(case, bi2, bf2)
-    if not np.array_equal(base.view(np.uint64), got2.view(np.uint64)):
+    tiny = 2.0**-1000
+    underflow = any(x != 0 and abs(x) < tiny for vs in (case["bi"]["values"], case["bf"]["values"], bi2, bf2)
+                    for v in vs for x in v)
+    if underflow:
+        # a component that leaves the normal range loses bits when scaled: 2^k is then not exact
+        labs.append("pow2:underflow-skip")
+    elif not np.array_equal(base.view(np.uint64), got2.view(np.uint64)):
         # +0.0 / -0.0 are the same vector
         if not np.array_equal(base, got2):
             bad = np.argwhere(base != got2)[0]
@@ -348,7 +359,7 @@ def check_q_scale(case):
                 f"{_fl(b[idx])} -> {_fl(g[idx])}",
             )
     labs.append("ki:" + ("0" if case["ki"] == 0 else "neg" if case["ki"] < 0 else "pos"))
-    return labs, nonzero and (case["ki"] != 0 or case["kf"] != 0)
+    return labs, nonzero and not underflow and (case["ki"] != 0 or case["kf"] != 0)
 
 
 # ---------------------------------------------------------------------------- facet: rotation
@@ -415,11 +426,13 @@ def b_spec(draw, max_logcond=6.0):
     unit = draw(st.sampled_from(B_UNITS))
     kind = draw(st.sampled_from(["svd", "svd", "svd", "lattice"]))
     if kind == "svd":
-        lc = draw(st.one_of(st.floats(0, max_logcond), st.floats(0, 1), st.just(0.0), st.just(max_logcond)))
+        # log10(cond) uniform over 0..max (integers/100: Hypothesis' float strategy over-weights the ends)
+        lc = draw(st.one_of(st.integers(0, int(100 * max_logcond)), st.integers(0, int(100 * max_logcond)),
+                            st.integers(0, 100), st.sampled_from([0, int(100 * max_logcond)]))) / 100.0
         spectrum = draw(st.sampled_from(["two_small", "one_small", "spread"]))
         mid = {"two_small": lc, "one_small": 0.0}.get(spectrum)
         if mid is None:
-            mid = draw(st.floats(0, lc)) if lc > 0 else 0.0
+            mid = lc * draw(st.integers(0, 100)) / 100.0
         scale = draw(logfloat(-2, 1))
         s = [scale, scale * 10.0 ** (-mid), scale * 10.0 ** (-lc)]
         return {"kind": "svd", "unit": unit, "qV": draw(quaternion()), "qW": draw(quaternion()),
@@ -522,6 +535,13 @@ def _b_var(spec):
     return sc.spatial.linear_transform(value=stored, unit=spec["unit"]), Bm
 
 
+def _cond(A):
+    """cond_2 of an mp 3x3 matrix; float64 SVD is accurate to ~1e-10 relative at cond 1e6, and the
+    value only parameterises the error bound."""
+    s = np.linalg.svd(np.asarray([[float(x) for x in row] for row in A], dtype=np.float64), compute_uv=False)
+    return mp.mpf(float(s[0])) / mp.mpf(float(s[2])), mp.mpf(float(s[2]))
+
+
 def _hkl_bound(cond):
     return EPS * (HKL_C1 * cond + HKL_C2 * cond * cond)
 
@@ -549,7 +569,8 @@ def check_hkl(case):
     Bv, Bm = _b_var(case["B"])
     UBm = qvec.matmul(Ums[0], Bm)
     As = [qvec.matmul(Rm, UBm) for Rm in Rms]
-    conds = [qvec.cond2(A) for A in As]
+    conds = [_cond(A)[0] for A in As]
+    Ainvs = [qvec.inv(A) for A in As]
     # Q unit / B unit as an exact factor
     ufac = units.ALL[case["q_unit"]] / units.ALL[case["B"]["unit"]]
     hkl0 = [qvec.vec(h) for h in case["hkl0"]]
@@ -578,8 +599,7 @@ def check_hkl(case):
         bound = _hkl_bound(cond)
         labs.append(_cond_label(cond))
         qst = qvec.scale(ufac, qvec.vec(Qs[j]))   # stored Q in the unit of B
-        rhs = mp.matrix([x / qvec.TWO_PI for x in qst])
-        xref = list(mp.lu_solve(mp.matrix(A), rhs))
+        xref = qvec.matvec(Ainvs[ir], [x / qvec.TWO_PI for x in qst])
         gv = qvec.scale(ufac, qvec.vec(g[idx]))    # hkl: value times the unit's multiplier
         if not all(math.isfinite(float(x)) for x in g[idx]):
             raise Violation("non-finite", f"hkl = {_fl(g[idx])} for cond {mp.nstr(cond, 3)}")
@@ -663,11 +683,11 @@ def check_ub(case):
                 cn = qvec.norm([Bm[k][j] for k in range(3)])
                 gij = mp.mpf(float(g[idx][i][j]))
                 err = abs(gij - ref[i][j])
-                if not err <= TOL_UB * rn * cn:
+                if not err <= TOL_UB[ukind] * rn * cn:
                     raise Violation(
                         "ub-product",
                         f"UB[{i}][{j}] = {mp.nstr(gij, 17)} but (U B)[{i}][{j}] = {mp.nstr(ref[i][j], 17)}; "
-                        f"error {mp.nstr(err / (rn * cn), 3)} of |U_i||B_j| > {TOL_UB:.2e}",
+                        f"error {mp.nstr(err / (rn * cn), 3)} of |U_i||B_j| > {TOL_UB[ukind]:.2e}",
                         {"index": list(idx), "i": i, "j": j},
                     )
     return labs, nontrivial
@@ -857,9 +877,9 @@ def check_graph(case):
     Uv, Ums, ukind = _rot_var([case["U"]], [])
     Bv, Bm = _b_var(case["B"])
     A = qvec.matmul(Rms[0], qvec.matmul(Ums[0], Bm))
-    cond = qvec.cond2(A)
-    Ainv = mp.matrix(A) ** -1
-    ainv_norm = qvec.singular_values(A)[2] ** -1
+    cond, smin = _cond(A)
+    Ainv = qvec.inv(A)
+    ainv_norm = 1 / smin
     lam_dim = case["lam"]["dims"][0]
     sizes = {}
     for o in (case["lam"], case["bi"], case["bf"]):
@@ -908,8 +928,7 @@ def check_graph(case):
                                            f"|diff|/k = {mp.nstr(err, 3)}", {"index": list(idx)})
         if not have_hkl:
             continue
-        rhs = mp.matrix([x * ufac / qvec.TWO_PI for x in qref])
-        xref = list(Ainv * rhs)
+        xref = qvec.matvec(Ainv, [x * ufac / qvec.TWO_PI for x in qref])
         gv = qvec.scale(ufac, qvec.vec(hv[idx]))
         tol = _hkl_bound(cond) * qvec.norm(xref) + ainv_norm * tolq * k * ufac / qvec.TWO_PI
         e = qvec.norm(qvec.sub(gv, xref))
@@ -927,29 +946,29 @@ def check_graph(case):
 
 FACETS = [
     Facet("q_formula", check_q_formula, strategy=lambda tier: q_cases(),
-          quick=(2, 500), thorough=(16, 6000), min_nontrivial=0.5,
+          quick=(2, 400), thorough=(16, 2000), min_nontrivial=0.5,
           doc="Q_elements_from_wavelength = (2 pi/lambda)(e_i - e_f) in mpmath; unit, dtype, dims"),
     Facet("q_norm_vs_scalar", check_q_norm, strategy=lambda tier: q_cases(),
-          quick=(2, 400), thorough=(16, 5000), min_nontrivial=0.5,
+          quick=(1, 500), thorough=(16, 1200), min_nontrivial=0.5,
           doc="|Q_vec| = Q_from_wavelength(lambda, two_theta(b_i, b_f)) = 4 pi sin(theta)/lambda"),
     Facet("q_beam_length", check_q_scale, strategy=lambda tier: q_scale_cases(),
-          quick=(2, 400), thorough=(16, 4000), min_nontrivial=0.5,
+          quick=(1, 500), thorough=(16, 1200), min_nontrivial=0.5,
           doc="rescaling either beam: bit-identical for powers of two, to rounding otherwise"),
     Facet("q_rotation", check_q_rotation, strategy=lambda tier: q_rot_cases(),
-          quick=(2, 400), thorough=(16, 4000), min_nontrivial=0.5,
+          quick=(1, 500), thorough=(16, 1200), min_nontrivial=0.5,
           doc="Q(R b_i, R b_f) = R Q(b_i, b_f) for the 24 exact axis rotations and general R"),
     Facet("hkl_inverse", check_hkl, strategy=lambda tier: hkl_cases(),
-          quick=(4, 400), thorough=(16, 5000), min_nontrivial=0.5,
+          quick=(4, 300), thorough=(16, 1600), min_nontrivial=0.5,
           doc="hkl_vec_from_Q_vec(Q, ub_matrix_from_u_and_b(U,B), R): forward error and residual of "
-              "2 pi R U B hkl = Q within eps*(32 cond + cond^2)"),
+              "2 pi R U B hkl = Q within eps*(128 cond + cond^2)"),
     Facet("ub_product", check_ub, strategy=lambda tier: ub_cases(),
-          quick=(2, 400), thorough=(16, 4000), min_nontrivial=0.5,
+          quick=(2, 300), thorough=(16, 1200), min_nontrivial=0.5,
           doc="ub_matrix_from_u_and_b = U.B entrywise vs mpmath"),
     Facet("components_lossless", check_components, strategy=lambda tier: comp_cases(),
-          quick=(2, 600), thorough=(16, 5000), min_nontrivial=0.5,
+          quick=(2, 500), thorough=(16, 2500), min_nontrivial=0.5,
           doc="Q_vec_from_Q_elements / hkl_elements_from_hkl_vec: bit-lossless; mismatched sizes raise DimensionError"),
     Facet("graph_wiring", check_graph, strategy=lambda tier: graph_cases(),
-          quick=(2, 200), thorough=(16, 2000), min_nontrivial=0.5,
+          quick=(2, 150), thorough=(16, 600), min_nontrivial=0.5,
           doc="transform_coords over graph.tof.elastic / elastic_hkl / elastic_Q_vec reaches Q_vec, hkl_vec, h, k, l"),
 ]
 
@@ -969,4 +988,4 @@ def selftest():
     B = qvec.mat([[0.5, 0, 0], [0, 0.25, 0], [0, 0, 0.125]])
     Q = qvec.scale(qvec.TWO_PI, qvec.matvec(qvec.matmul(R, B), qvec.vec([2, 4, 8])))
     assert all(abs(g - e) < mp.mpf(10) ** -40 for g, e in zip(Q, [-qvec.TWO_PI, qvec.TWO_PI, qvec.TWO_PI], strict=True))
-    assert _hkl_bound(1.0) == EPS * 33
+    assert _hkl_bound(1.0) == EPS * 129
